@@ -25,6 +25,7 @@ from sim.seams import RandomSeam, patched
 NAME = "cli"
 P = "C20"
 USES_INDEX = True
+NONDETERMINISM_IS_VIOLATION = ("C20",)
 
 
 class Sink:
